@@ -755,6 +755,9 @@ func (view *View) Limit(ctx context.Context, scope *ReferenceScope, clause parse
 		}
 		percentage := number.(*value.Float).Raw()
 		value.Discard(number)
+		if math.IsNaN(percentage) {
+			return NewInvalidLimitPercentageError(clause)
+		}
 
 		if 100 < percentage {
 			limit = 100
